@@ -38,7 +38,8 @@ def families(tier):
         {'name': 'sb-same-build', 'params': {'depth': 0, 'width': 0, 'shape': SLIM, 'kw': True}, 'weight': 1},
         {'name': 'sb-next-build', 'params': {'depth': 1, 'width': 1, 'shape': SLIM, 'kw': False}, 'weight': 2},
         {'name': 'sb-same-build', 'params': {'depth': 1, 'width': 2, 'shape': TINY, 'kw': False, 'containers': ['dict']}, 'weight': 3},
-        {'name': 'bf-next-build', 'params': {'depth': 0, 'width': 0, 'shape': MID, 'kw': False}, 'weight': 2},
+        {'name': 'bf-next-build', 'params': {'depth': 0, 'width': 0, 'shape': SLIM, 'kw': True}, 'weight': 2},
+        {'name': 'bf-next-build', 'params': {'depth': 1, 'width': 1, 'shape': TINY, 'kw': False, 'containers': ['dict'], 'spellings': ['abs']}, 'weight': 1},
     ]
     if tier == 'quick':
         return q
@@ -143,7 +144,8 @@ def harness(eng, fam, P):
             eng.check('C07.hit-iff-same-entry', same if observed else L.not_(same), sig + ('hit' if observed else 'miss',),
                       info={'call1': eng.path_info['call1'], 'call2': eng.path_info['call2'], 'hit': observed})
         else:
-            how = SPELLINGS[eng.choose('spelling', len(SPELLINGS))]
+            sp = P.get('spellings', SPELLINGS)
+            how = sp[eng.choose('spelling', len(sp))]
             other = eng.choose('otherpath', 2)
             eng.path_info['spelling'] = how
             p1 = w.p('o/t')
